@@ -24,7 +24,7 @@ var intrinsicNames = map[string]bool{
 	"runtime.Gosched":   true,
 	"runtime.KeepAlive": true,
 	"runtime/debug.Stack": true,
-	"time.Now":          true, "time.Since": true, "time.Sleep": true,
+	"time.Now":          true, "time.Since": true, "time.Sleep": true, "time.After": true,
 	"(*sync.WaitGroup).Add": true, "(*sync.WaitGroup).Done": true, "(*sync.WaitGroup).Wait": true,
 	"math/rand/v2.IntN": true, "math/rand/v2.Int": true, "math/rand.Intn": true,
 	"os.Getenv": true,
@@ -248,6 +248,11 @@ func (e *Exec) intrinsic(name string, args []Value, fn *ssa.Function, fr *frame)
 		return e.zero(fn.Signature.Results().At(0).Type())
 	case "time.Since":
 		return e.internalVar(64)
+	case "time.After":
+		// a timer that has already fired: time passes arbitrarily fast in a sequential run
+		ct := fn.Signature.Results().At(0).Type().Underlying().(*types.Chan)
+		e.objSeq++
+		return &ChanV{id: e.objSeq, cap: 1, et: ct.Elem(), buf: []Value{e.zero(ct.Elem())}}
 	case "math/rand/v2.IntN", "math/rand.Intn":
 		n := args[0].(*Term)
 		e.guard(tc.Slt(tc.Const(n.W, 0), n), "explicit", "invalid argument to IntN")
